@@ -1,27 +1,41 @@
 #!/bin/sh
-# Build the framework from files on disk only (offline): Coq project + Go harness.
+# Build the framework from files on disk only (offline): Coq cones and Go harness commands of the
+# accepted properties (lib/manifest/ACCEPTED). Checks rebuild what they need on every run anyway;
+# this makes the first run fast and fails early when the development does not build.
 set -e
 cd "$(dirname "$0")"
 export GOFLAGS=-mod=mod GOPROXY=off GOSUMDB=off GOTOOLCHAIN=local
 python3 - <<'PY'
-import sys, os
+import os, subprocess, sys
 sys.path.insert(0, os.path.join(os.getcwd(), "lib"))
 import vlib
-bad = vlib.forbidden_words()
+accepted = open("lib/manifest/ACCEPTED").read().split()
+bad = []
+for p in accepted:
+    bad += vlib.forbidden_words(p)
 if bad:
-    print("forbidden constructs in coq/:"); print("\n".join(bad)); sys.exit(1)
+    print("forbidden constructs in coq/:"); print("\n".join(sorted(set(bad)))); sys.exit(1)
 vlib.harness_prepare()
+# Go: thriftgo with hooks on, every harness command (failures are fatal only for accepted properties)
+ok, log, _ = vlib.build_thriftgo()
+if not ok:
+    print(log[-3000:]); sys.exit(1)
+cmds = sorted(os.listdir(os.path.join(vlib.HARNESS, "cmd")))
+need = {p.lower() for p in accepted}
+for c in cmds:
+    ok, log, _ = vlib.go_build("./cmd/" + c, c)
+    if not ok:
+        print("go build ./cmd/%s failed%s" % (c, "" if c in need else " (not an accepted property: ignored)"))
+        if c in need:
+            print(log[-3000:]); sys.exit(1)
+# Coq: the cones of the accepted properties
+targets = []
+for p in accepted:
+    for t in ("Props/%s.vo" % p, "Corr/%s.vo" % p):
+        if os.path.exists(os.path.join(vlib.COQ, t[:-1])):
+            targets.append(t)
+ok, log = vlib.coq_build(targets, timeout=3000)
+if not ok:
+    print(log[-6000:]); sys.exit(1)
+print("setup-ok: %d accepted properties, %d coq targets, %d harness commands" % (len(accepted), len(targets), len(cmds)))
 PY
-# translators regenerate their .v files from /repo before the Coq build
-if [ -x ./translate.sh ]; then ./translate.sh; fi
-cd coq
-python3 -c "import sys; sys.path.insert(0, \"../lib\"); import vlib; vlib.coq_makefile()"
-timeout 3000 make -j"$(nproc)"
-cd ../harness
-mkdir -p ../build/bin
-for d in cmd/*/; do
-  n=$(basename "$d")
-  go build -tags verif -o ../build/bin/"$n" ./"$d"
-done
-(cd /repo && go build -tags verif -o /verif/build/bin/thriftgo .)
-echo setup-ok
